@@ -10,6 +10,9 @@ CONSTANTS
   MaxRounds = 3
   FixVoidSrc = TRUE
   ArmLate = {}
+  RegCtxs = {"plain", "guard", "handler"}
+  ResCtxs = {"plain", "guard", "handler", "scope", "local"}
+  SkipUnwinding = {}
   ArgsByRef = FALSE
 INVARIANTS TypeOK CallbackOnce RightOutcome HelperFreedOnce ConvertedValueOrException PublishedResumable ArgsAsPassed NoStuckState
 PROPERTIES FreedByCompletion AllComplete
